@@ -301,7 +301,7 @@ def gen(tier, rng):
     quick = tier == "quick"
     search = tier == "search"
     out = []
-    nrand = 1500 if quick else 20000
+    nrand = 1000 if quick else 20000
     if search:
         nrand = 6000
     # ---------------- variant
